@@ -139,6 +139,11 @@ static MCase gen_case() {
       c.a = {65536, 0, 0, 0, 65536, 0, 0, 0, 65536};
       for (int i = 0; i < 9; i++) c.a[i] += R(-3, 3);
       if (coin(40)) c.a[2] += R(-5, 5) * 65536;
+      // one or two entries at the ends of the 32-bit range: "is this entry within epsilon of 0 / 1" must not wrap
+      if (coin(30)) {
+        int n = (int)R(1, 2);
+        for (int k = 0; k < n; k++) c.a[(size_t)R(0, 8)] = pick<int64_t>({INT32_MIN, INT32_MAX, INT32_MIN + 1, INT32_MIN + 65536, INT32_MAX - 65535, INT32_MIN + 2});
+      }
     }
     c.b = gen_matrix(1);
     break;
